@@ -1779,3 +1779,66 @@ def r_operand_preserved(ctx, f: FunctionInfo, pname: str, rule="R-COV", chain=No
         ctx.ob(rule, f, key, None, f"`{unparse(unk)[:70]}`: not one of the recognised operator-preserving forms", unk, chain=chain, required=False)
     else:
         ctx.ob(rule, f, key, True, f"{sites} re-binding(s), all operator-preserving", chain=chain)
+
+
+# ---------------------------------------------------------------------------------------------
+def r_parallel_families(ctx, f: FunctionInfo, names, rule="R-ENUM", chain=None):
+    """`states[k]` is prepared with probability `probs[k]`: the two lists are parallel.  Re-binding one of them to a *selection*
+    (a filtered comprehension, a comprehension over a filtered index list, a slice, a sort) without re-binding the other with the
+    same selection shifts every later joint index: p_k multiplies the wrong state."""
+    names = [n for n in names if f.param(n) is not None]
+    if len(names) < 2:
+        return
+    defs: dict[str, list] = {}
+    for n in walk_no_nested(f.node):
+        if isinstance(n, ast.Assign) and len(n.targets) == 1 and isinstance(n.targets[0], ast.Name):
+            defs.setdefault(n.targets[0].id, []).append(n)
+
+    def filtered_source(it, depth=0):
+        """text of the selecting source if the iterable is (derived from) a filtered list, else None"""
+        if isinstance(it, ast.Name) and depth < 2:
+            for d in defs.get(it.id, []):
+                v = d.value
+                if isinstance(v, ast.ListComp) and any(g.ifs for g in v.generators):
+                    return unparse(v)
+                if isinstance(v, ast.Call) and getattr(v.func, "id", getattr(v.func, "attr", "")) in ("sorted", "argsort", "nonzero", "flatnonzero", "where", "filter"):
+                    return unparse(v)
+        if isinstance(it, ast.Call) and getattr(it.func, "id", getattr(it.func, "attr", "")) in ("sorted", "reversed", "filter", "argsort", "nonzero", "flatnonzero"):
+            return unparse(it)
+        if isinstance(it, (ast.ListComp, ast.GeneratorExp)) and any(g.ifs for g in it.generators):
+            return unparse(it)
+        return None
+
+    sel: dict[str, list] = {n: [] for n in names}
+    for nm in names:
+        for d in defs.get(nm, []):
+            v = d.value
+            src = None
+            if isinstance(v, ast.ListComp):
+                if any(g.ifs for g in v.generators):
+                    src = "if " + " and ".join(unparse(c) for g in v.generators for c in g.ifs)
+                else:
+                    for g in v.generators:
+                        fs = filtered_source(g.iter)
+                        if fs:
+                            src = fs
+            elif isinstance(v, ast.Subscript) and isinstance(v.value, ast.Name) and v.value.id == nm and isinstance(v.slice, ast.Slice) and \
+                    not (v.slice.lower is None and v.slice.upper is None and v.slice.step is None):
+                src = f"[{unparse(v.slice)}]"
+            elif isinstance(v, ast.Call) and getattr(v.func, "id", getattr(v.func, "attr", "")) in ("sorted", "reversed", "filter") and nm in unparse(v):
+                src = unparse(v.func)
+            if src and nm in {x.id for x in ast.walk(v) if isinstance(x, ast.Name)}:
+                sel[nm].append((d, src))
+    bad = None
+    for nm in names:
+        for d, src in sel[nm]:
+            for other in names:
+                if other != nm and not any(s2 == src for _, s2 in sel[other]):
+                    bad = bad or (nm, other, d, src)
+    key = f"parallel lists {names} are only re-bound together (same selection on each)"
+    if bad:
+        nm, other, d, src = bad
+        ctx.ob(rule, f, key, False, f"`{unparse(d)[:70]}` keeps only the members of `{nm}` selected by `{src[:50]}` while `{other}` keeps all of its entries: "
+               f"`{nm}[k]` and `{other}[k]` no longer belong to the same member (every entry after the first dropped one is paired with the wrong weight)", d, chain=chain)
+    else:
+        ctx.ob(rule, f, key, True, f"{sum(len(v) for v in sel.values())} selecting re-binding(s), consistent", chain=chain)
